@@ -101,15 +101,15 @@ CLAIMS = {
         engine="E2 loopvc",
         level="proof",
         technique="contract-based deductive verification: loop-invariant VCs (self-generated from the real AST, z3 arrays + quantifiers, unbounded N) for sum_by_p_id; abstract execution of the real grouped_* kernels per dtype class against the npg.aggregate contract; exhaustive precedence / result-type tables",
-        text="sum_by_p_id: init/preservation/post/safety VCs discharged for any number of rows (ghost partial-sum contract). grouped_count/sum/mean/max/min/any/all: for each dtype class the real straight-line kernel returns exactly Gather(Agg(group_id, column, F), group_id) or raises TypeError outside the documented classes. Spec precedence and result types exhaustively over all presence patterns. join_numpy and datetime max/min bounded-exhaustive only (stated).",
+        text="sum_by_p_id: init/preservation/post/safety VCs discharged for any number of rows (ghost partial-sum contract). grouped_count/sum/mean/max/min/any/all: for each dtype class the real straight-line kernel returns exactly Gather(Agg(group_id, column, F), group_id) or raises TypeError outside the documented classes. Spec precedence and result types exhaustively over all presence patterns. Datetime max/min: the kernel's term (cast to days, aggregate, cast back) by abstract execution plus z3 lemmas DT1-DT3 (the day cast is exact and strictly monotone on whole-day values for every numpy unit, so max/min commute with it), under VALID (whole days, no NaT) and the numpy cast contract; bounded-exhaustive run in addition. join_numpy proved modulo numpy contracts and run bounded-exhaustively.",
         note="A1 (summation order ignored); trusted: npg.aggregate contract (validated on all small arrays against the real library in the same run), numpy fancy indexing, loopvc's dict/array model; termination not verified; join_numpy not proved (bounded)",
         ref="7 C11",
     ),
     "C12": dict(
         engine="E2 loopvc",
         level="proof",
-        technique="contract-based deductive verification: loop-invariant verification conditions generated from the real source of eg_id/ehe_id/sn_id/bg_id/wthh_id_numpy (dict/Counter/list as z3 arrays, quantified invariants, Skolem partner-row function), discharged by z3 for an unbounded number of rows; fg_id_numpy: staged contracts (index loop functional, assignment loop with nested loop safety + range) discharged the same way, the partition it computes bounded-exhaustive (the property's own bound)",
-        text="249 obligations: VCs (init, preservation per path and conjunct, order-free partition postconditions, exceptional post of sn_id, safety of dict look-ups) discharged for the five kernels and for the two stage contracts of fg_id_numpy (126 VCs: index inverts p_id, children lists sound / complete / non-empty; no KeyError / IndexError, every person gets an id in [0, #units)); collision / nesting lemmas; vacuity canaries. WHO SHARES an id in fg_id_numpy is checked against an independent executable unit definition on ALL typed pointer structures up to isomorphism and ALL row orders up to 4 persons (quick) / 5 persons (thorough): bounded, not counted as proved.",
+        technique="contract-based deductive verification: loop-invariant verification conditions generated from the real source of eg_id/ehe_id/sn_id/bg_id/wthh_id_numpy (dict/Counter/list as z3 arrays, quantified invariants, Skolem partner-row function), discharged by z3 for an unbounded number of rows; fg_id_numpy: staged contracts (index loop functional, assignment loop with nested loop: safety + range + family unit within household) discharged the same way, the partition it computes bounded-exhaustive (the property's own bound)",
+        text="278 obligations: VCs (init, preservation per path and conjunct, order-free partition postconditions, exceptional post of sn_id, safety of dict look-ups) discharged for the five kernels and for the two stage contracts of fg_id_numpy (153 VCs: index inverts p_id, children lists sound / complete / non-empty; no KeyError / IndexError, every person gets an id in [0, #units), equal ids imply equal hh_id); collision / nesting lemmas; vacuity canaries. WHO SHARES an id in fg_id_numpy is checked against an independent executable unit definition on ALL typed pointer structures up to isomorphism and ALL row orders up to 4 persons (quick) / 5 persons (thorough): bounded, not counted as proved.",
         note="VALID (unique ids, symmetric existing pointers, partners share a household, < 100 split-off children per family unit); Python ints mathematical; termination not verified; the partition postcondition of fg_id_numpy has no inductive invariant in reach (order-dependent overwriting) -> bounded exhaustive; structures with ambiguous unit definition (two co-resident parents that are not partners; partnered persons under 25 living with a parent) are excluded from its domain",
         ref="7 C12",
     ),
